@@ -165,6 +165,21 @@ def check(tier, seed):
         judge(resp, text, "request", w)
         if "data" not in resp or resp["data"] is not None or not resp.get("errors"):
             run.violation("response:request-errors", "variable / operation-selection failure must give data: null and errors, got %r" % (resp,), w, True)
+    # line terminators (2.1.2): a lone carriage return ends a line like LF and CRLF do - the reported line / column of an error must be the same for
+    # the three spellings of the same document
+    base_doc = "{\n  me {\n    name\n    nope\n  }\n}"
+    want = None
+    for spelling, eol in (("LF", "\n"), ("CRLF", "\r\n"), ("CR", "\r")):
+        text = base_doc.replace("\n", eol)
+        n += 1
+        res = process_graphql_query(schema, text, context=H.Ctx({}))
+        resp = res.response()
+        locs = [tuple(sorted(l.items())) for e in resp.get("errors", []) for l in e.get("locations", [])]
+        if want is None:
+            want = locs
+        elif locs != want:
+            run.violation("response:error-location-line-terminators", "with %s line ends the error is located at %r, with LF at %r" % (spelling, locs, want),
+                          {"text": text, "line_ends": spelling, "locations": [dict(l) for l in locs]}, True)
     # requests whose variables are accepted but fail where they are USED at execution time (explicit null for a defaulted variable feeding a non-null
     # directive argument; a Float variable beyond the range of a double; a huge Int): still a result, in every configuration
     for text, variables in [("query ($v: Boolean = true) { count @skip(if: $v) me { name } }", {"v": None}),
